@@ -150,12 +150,54 @@ static void enumerate(void) {
         }
         truncation(out.p, out.n, "c18a:adversarial-length-magic-records"); mc_count("cuts", out.n); ref_buf_free(&out); ref_arena_free(&RA);
     }
+    if (mc_next()) {     /* a 12 MB file whose INT32 values contain <length> "PAR1" pairs: the prefixes that end right after such a pair carry a plausible footer length of several MiB */
+        mc_desc("c18a:large-file-length-magic-pairs"); mc_case_key(0x18ac); mc_nontrivial(); mc_feature("truncation"); mc_budget_ms(120000);
+        enum { NV = 3000000 }; int32_t* v = malloc(sizeof(int32_t) * NV); for (int i = 0; i < NV; i++) v[i] = i * 7 + 1;
+        static const int32_t LEN[] = { 1 << 20, 8 << 20, (8 << 20) + 4096, 10 << 20, 11 << 20, 0x7fffffff, -8, -1 }; int at[8];
+        for (int k = 0; k < 8; k++) { at[k] = 2900000 + k * 1000; v[at[k]] = LEN[k]; v[at[k] + 1] = 0x31524150; }
+        carquet_error_t err = CARQUET_ERROR_INIT; carquet_schema_t* sch = carquet_schema_create(&err); (void)carquet_schema_add_column(sch, "v", CARQUET_PHYSICAL_INT32, NULL, CARQUET_REPETITION_REQUIRED, 0);
+        carquet_writer_options_t wo; carquet_writer_options_init(&wo); wo.compression = CARQUET_COMPRESSION_UNCOMPRESSED; char* mem = NULL; size_t mlen = 0; FILE* mf = open_memstream(&mem, &mlen); carquet_writer_t* w = carquet_writer_create_file(mf, sch, &wo, &err);
+        if (!w || carquet_writer_write_batch(w, 0, v, NV, NULL, NULL) != CARQUET_OK || carquet_writer_close(w) != CARQUET_OK) mc_harness_error("cannot write the large seed");
+        fclose(mf); carquet_schema_free(sch);
+        for (int k = 0; k < 8; k++) { uint8_t pat[8]; memcpy(pat, &LEN[k], 4); memcpy(pat + 4, "PAR1", 4); uint8_t* hit = memmem(mem + 4, mlen - 4, pat, 8); if (!hit) mc_harness_error("large seed: pair %d not found", k);
+            for (int d = -1; d <= 1; d++) { size_t cut = (size_t)(hit + 8 - (uint8_t*)mem) + (size_t)d; ref_file rf; bool complete = ref_pq_read(&RA, (const uint8_t*)mem, cut, &rf, 0) == 0; ref_arena_free(&RA);
+                mc_desc("c18a:large-file-length-magic-pairs;length=%d;cut=%zu/%zu", LEN[k], cut, mlen); uint8_t* x = mc_exact(mem, cut); FILE* f = fopen(g_path, "wb"); if (!f || fwrite(mem, 1, cut, f) != cut) mc_harness_error("scratch write failed"); fclose(f);
+                for (int mode = 0; mode < 3; mode++) { carquet_error_t e2 = CARQUET_ERROR_INIT; carquet_reader_options_t o; carquet_reader_options_init(&o); o.use_mmap = mode == 2; carquet_reader_t* rd = mode == 0 ? carquet_reader_open_buffer(x, cut, &o, &e2) : carquet_reader_open(g_path, &o, &e2);
+                    static const char* MN[] = { "buffer", "fread", "mmap" }; if (rd) { if (!complete) { char key[96]; snprintf(key, sizeof key, "truncated.accepted.%s.large-prefix-ends-with-length-and-magic", MN[mode]); mc_fail(key, "prefix of %zu of %zu bytes (footer length field %d) opened", cut, mlen, LEN[k]); } carquet_reader_close(rd); }
+                    else if (e2.code == CARQUET_OK) mc_fail("truncated.null-without-error-code.large", "cut=%zu mode %s", cut, MN[mode]); }
+                free(x); mc_count("cuts", 1); } }
+        unlink(g_path); free(mem); free(v);
+    }
     mc_stage("b.failing-sinks.every-offset.every-invocation");
     for (int k = 0; k < 210; k += (mc_thorough() ? 1 : 2)) {
         if (!mc_next()) continue;
         hist_t h; seed_hist(k, &h); char fd[760]; snprintf(fd, sizeof fd, "c18b:%s", tbl_desc(&h)); mc_desc("%s", fd); mc_case_key(mc_mix(0x18b, (uint64_t)k)); mc_nontrivial(); mc_feature("sink");
         uint8_t* img; size_t len; carquet_status_t st; const char* where; if (tbl_write(&h, &img, &len, &st, &where)) { mc_count("seed.writer-refused", 1); continue; }
         sink_faults(&h, img, len, fd, mc_thorough()); free(img);
+    }
+    /* a row group larger than 1 MiB (writers may split large writes): every sink invocation fails once (transient) or for good */
+    mc_stage("b2.large-row-group.sink-faults-per-invocation");
+    for (int buf = 0; buf < 2; buf++) for (int transient = 0; transient < 2; transient++) {
+        if (!mc_next()) continue;
+        mc_desc("c18b:large-row-group;buf=%d;%s", buf, transient ? "transient" : "persistent"); mc_case_key(mc_mix(0x18e, ((uint64_t)buf << 4) | (uint64_t)transient)); mc_nontrivial(); mc_feature("sink"); mc_budget_ms(120000);
+        enum { NBIG = 400000 }; static int64_t* v; if (!v) { v = malloc(sizeof(int64_t) * NBIG); for (int i = 0; i < NBIG; i++) v[i] = (int64_t)i * 0x9E3779B97F4A7C15ll; }
+        uint8_t* good = NULL; size_t glen = 0; long ncalls = 0;
+        for (long j = 0; j <= ncalls; j++) {       /* j = 0: fault-free reference run */
+            mcf_sink_t s; FILE* f = mcf_sink_open(&s, -1, j, 0, buf ? 1 : 0); s.transient = transient; carquet_error_t err = CARQUET_ERROR_INIT; carquet_status_t st = CARQUET_OK, first_bad = CARQUET_OK;
+            carquet_schema_t* sch = carquet_schema_create(&err); (void)carquet_schema_add_column(sch, "v", CARQUET_PHYSICAL_INT64, NULL, CARQUET_REPETITION_REQUIRED, 0);
+            carquet_writer_options_t wo; carquet_writer_options_init(&wo); wo.compression = CARQUET_COMPRESSION_UNCOMPRESSED; carquet_writer_t* w = carquet_writer_create_file(f, sch, &wo, &err);
+            if (!w) { first_bad = err.code ? err.code : CARQUET_ERROR_FILE_WRITE; } else {
+                st = carquet_writer_write_batch(w, 0, v, NBIG, NULL, NULL); if (st != CARQUET_OK && first_bad == CARQUET_OK) first_bad = st;
+                if (first_bad == CARQUET_OK) { st = carquet_writer_new_row_group(w); if (st != CARQUET_OK) first_bad = st; }
+                if (first_bad == CARQUET_OK) { st = carquet_writer_write_batch(w, 0, v, 5, NULL, NULL); if (st != CARQUET_OK) first_bad = st; }
+                if (first_bad == CARQUET_OK) { st = carquet_writer_close(w); if (st != CARQUET_OK) first_bad = st; } else carquet_writer_abort(w); }
+            fclose(f); carquet_schema_free(sch);
+            if (j == 0) { if (first_bad != CARQUET_OK) { mc_fail("sink.large.fault-free-run-failed", "status %d", first_bad); mcf_sink_free(&s); break; } good = malloc(s.len); memcpy(good, s.data, s.len); glen = s.len; ncalls = s.calls; mc_count("sink.large.invocations", (uint64_t)ncalls); }
+            else if (first_bad == CARQUET_OK && (s.len != glen || memcmp(s.data, good, glen))) { char key[96]; snprintf(key, sizeof key, "sink.large-row-group.all-calls-ok-but-short.%s.%s", transient ? "transient-failure" : "persistent-failure", buf ? "unbuffered" : "stdio-default-buffer");
+                mc_fail(key, "sink write #%ld of %ld failed%s, every writer call including close returned OK; the sink holds %zu of %zu bytes", j, ncalls, transient ? " once" : "", s.len, glen); }
+            mcf_sink_free(&s);
+        }
+        free(good);
     }
     mc_stage("c.abort-after-every-operation");
     for (int k = 0; k < 210; k += 1) {
